@@ -470,6 +470,19 @@ func TestC15Enum(t *testing.T) {
 }
 
 func genDigits(t *rapid.T) string {
+	if rapid.IntRange(0, 9).Draw(t, "leadingZeros") == 9 {
+		// a bound written with leading zeros. Only spellings with ONE possible reading are written: the value is below 8, or
+		// a digit 8 / 9 occurs (so it cannot be meant as octal) - "010" is left out because nothing documents its base.
+		z := strings.Repeat("0", rapid.IntRange(1, 3).Draw(t, "zeros"))
+		if rapid.Bool().Draw(t, "lzSmall") {
+			return z + fmt.Sprint(rapid.IntRange(0, 7).Draw(t, "lzBelow8"))
+		}
+		d := fmt.Sprint(rapid.IntRange(0, 40).Draw(t, "lzValue"))
+		if !strings.ContainsAny(d, "89") {
+			d = rapid.SampledFrom([]string{"8", "9", "08", "18", "19", "28", "9", "8"}).Draw(t, "lz89")
+		}
+		return z + d
+	}
 	switch rapid.IntRange(0, 5).Draw(t, "numClass") {
 	case 0, 1, 2:
 		return fmt.Sprint(rapid.IntRange(0, 40).Draw(t, "small"))
@@ -501,9 +514,8 @@ func TestC15(t *testing.T) {
 		// the actual count: near a declared bound when that is small enough to write out
 		c.Count = rapid.IntRange(0, 12).Draw(t, "count")
 		for _, b := range []string{c.Lo, c.Hi} {
-			if len(b) <= 3 && rapid.Bool().Draw(t, "nearBound") {
-				var n int
-				fmt.Sscan(b, &n)
+			if bv, _ := new(big.Int).SetString(b, 10); bv != nil && bv.IsInt64() && bv.Int64() <= 999 && rapid.Bool().Draw(t, "nearBound") {
+				n := int(bv.Int64()) // read in base 10 whatever the spelling (fmt.Sscan would take a leading zero for octal)
 				c.Count = n + rapid.IntRange(-1, 1).Draw(t, "delta")
 				if c.Count < 0 {
 					c.Count = 0
